@@ -472,7 +472,7 @@ func (vc *VC) typeFacts(st *State, x string, t types.Type) string {
 	case *types.Pointer, *types.Map, *types.Interface, *types.Chan, *types.Signature:
 		return sx("and", sx("<=", "0", x), sx("<=", x, st.allocTop))
 	case *types.Slice:
-		return sx("and", sx("<=", "0", sx("slen", x)), sx("<=", sx("slen", x), sx("scap", x)), sx("<=", "0", sx("soff", x)),
+		return sx("and", sx("<=", "0", sx("slen", x)), sx("<=", sx("slen", x), sx("scap", x)), sx("<=", sx("scap", x), "4611686018427387904"), sx("<=", "0", sx("soff", x)),
 			sx("<=", "0", sx("sbase", x)), sx("<=", sx("sbase", x), st.allocTop), sx("=>", sx("=", x, "0"), sx("=", sx("slen", x), "0")))
 	}
 	return "true"
